@@ -125,6 +125,8 @@ def simplify_app(fname, attrs, args):
       return NF.const(0)
     if cs[0] == 2:
       return NF.atom(LN2_ATOM)
+  if fname == "reshape" and isinstance(args[0], NF):
+    return args[0]     # element-wise identity (shape only)
   if fname == "join":
     uniq = []
     for a in args:
